@@ -41,6 +41,7 @@ def model : List String → String
         else "bad-op"
       | _, _ => "stuck"
     | _, _, _, _, _ => "bad-op"
+  | ["ca", _] => "ok"   -- the CA certificates' own validity is no input of the model
   | ["role"] => fixedLine KM.Gen.C03.maxRoleRequestingCertDuration true
   | ["role", kind, p] =>
     match p.toInt? with
@@ -68,6 +69,7 @@ def verdict (b : Bool) (what : String) : String := if b then "ok" else s!"viol {
 
 /-- judge mode -/
 def judge : List String → String
+  | ["ca", _] => "ok"
   | ["cg", ty, p, iat, tb, ta, status, va, vb] =>
     match parseReq p, iat.toInt?, tb.toInt?, ta.toInt? with
     | some req, some iat, some tb, some ta =>
